@@ -152,6 +152,7 @@ def run(ctx):
                      f"the transition/guard that was evaluated: two different guards can share one slot within a selection pass, so a candidate "
                      f"whose own guard is false can be nominated (and an enabled one skipped)", x)
     c.ob("R6", True, "selection closure", "memo-sites", f"{n_memo} memoised guard evaluation(s) examined (none is fine: every candidate is then evaluated directly)", None, nontrivial=False)
+    shared.eligible_bucket_rules(ctx, "R8", "guard")
     # ---- R7 a transition shared by several regions is selected once ---------------------
     sel = roles(ctx, "Interpreter").select
     apps = [x for x in own_nodes(sel.node) if isinstance(x, ast.Call) and isinstance(x.func, ast.Attribute) and x.func.attr == "append"
